@@ -20,17 +20,17 @@ import (
 
 // Job is what the driver hands to a worker process.
 type Job struct {
-	Prop     string            `json:"prop"`
-	Scenario string            `json:"scenario"`
-	Tier     string            `json:"tier"`
-	Seeds    []uint64          `json:"seeds"`
-	Tape     []uint32          `json:"tape,omitempty"` // replay: applies to Seeds[0]
-	Verbose  bool              `json:"verbose"`
-	Out      string            `json:"out"`
-	Args     map[string]string `json:"args,omitempty"`
-	MaxWall  int               `json:"max_wall_s"`
-	KeepTape bool              `json:"keep_tape"`
-	RunTimeout int             `json:"run_timeout_s"`
+	Prop       string            `json:"prop"`
+	Scenario   string            `json:"scenario"`
+	Tier       string            `json:"tier"`
+	Seeds      []uint64          `json:"seeds"`
+	Tape       []uint32          `json:"tape,omitempty"` // replay: applies to Seeds[0]
+	Verbose    bool              `json:"verbose"`
+	Out        string            `json:"out"`
+	Args       map[string]string `json:"args,omitempty"`
+	MaxWall    int               `json:"max_wall_s"`
+	KeepTape   bool              `json:"keep_tape"`
+	RunTimeout int               `json:"run_timeout_s"`
 }
 
 func TestWorker(t *testing.T) {
